@@ -569,7 +569,7 @@ Proof.
   - destruct m; try destruct Hk; cbn [buffer_msg] in H.
     + (* MP *)
       injection H as <- <-. right; left. rewrite bmsgs_push. cbn [fst]. unfold pbuf. cbn [bad_msg]. unfold eff.
-      destruct (parser_on c && parsed) eqn:Epp; destruct (is_allow (pout s)) eqn:Ea; destruct (ps_on c);
+      destruct parsed eqn:Epp; destruct (is_allow (pout s)) eqn:Ea; destruct (ps_on c);
         repeat match goal with |- context [if negb ?b then _ else _] => destruct (negb b) end;
         cbn; rewrite ?Ea; split; try reflexivity; try (apply is_allow_true; exact Ea).
     + destruct (ps_on c); [destruct (lookup name (ps s))|]; injection H as <- <-; try (pushed Ea).
@@ -578,6 +578,7 @@ Proof.
       left. split; reflexivity.
     + injection H as <- <-. pushed Ea.
     + destruct (ps_on c && is_stmt && negb (Nat.eqb name 0)); injection H as <- <-; pushed Ea.
+    + injection H as <- <-. left. split; reflexivity.
 Qed.
 
 Lemma forwarded_app a b : forwarded (a ++ b) = forwarded a ++ forwarded b.
@@ -621,6 +622,7 @@ Proof.
     + destruct meta as [p|]; [destruct (has (key_of p) sv)|]; eapply Hgen; eauto.
     + eapply Hgen; eauto.
     + destruct (ps_on c && is_stmt && negb (Nat.eqb name 0)); eapply Hgen; eauto.
+    + eapply Hgen; eauto.
     + eapply Hgen; eauto.
     + eapply Hgen; eauto.
 Qed.
@@ -670,13 +672,17 @@ Proof.
     + injection H as <- <-. split; [intros it []|]. right; right; left. split; reflexivity.
     + injection H as <- <-. split; [intros it []|]. right; right; left. split; reflexivity.
   - (* MH *) cbn [step_inner] in H. injection H as <- <-. split; [intros it []|left; split; reflexivity].
+  - (* MCmd *) cbn [step_inner] in H. destruct (after_server c s tx_after) as [s2 e2] eqn:Ea. injection H as <- <-.
+    destruct (after_server_bufs _ _ _ _ _ Ea) as (E1 & E2 & _ & _ & E3). split.
+    + cbn [forwarded]. rewrite E3. intros it [<-|[]]. left. split; reflexivity.
+    + left. unfold bmsgs. rewrite E1. split; [reflexivity|assumption].
 Qed.
 
 Lemma outer_checkout_ok c s m s' ev : outer_checkout c s m = (s', ev) ->
   (is_sync m = true -> is_allow (pout s) = true) -> ok_step c s m s' ev.
 Proof.
   unfold outer_checkout. intros H Hs.
-  destruct (pool_ok_of m) eqn:Eo.
+  destruct (pool_ok_of m && role_ok s) eqn:Eo.
   - destruct (step_inner c (set_held s true false) m) as [s2 e2] eqn:Es. injection H as <- <-.
     apply step_inner_ok in Es. exact Es.
   - injection H as <- <-. split; [intros it []|]. destruct (is_sync m) eqn:Ey.
@@ -694,15 +700,17 @@ Proof.
     + apply outer_checkout_ok; [exact H|]. intros Hc. congruence.
 Qed.
 
-Lemma step_ok c s m s' ev : step c s m = (s', ev) -> ok_step c s m s' ev.
+Lemma step_ok c s m s' ev : step_core c s m = (s', ev) -> ok_step c s m s' ev.
 Proof.
-  unfold step. destruct (dead s).
+  unfold step_core. destruct (dead s).
   - intros H. injection H as <- <-. split; [intros it []|left; split; reflexivity].
   - destruct (held s); [apply step_inner_ok|].
     unfold step_outer. destruct m; try (intros H; apply buffer_msg_ok; [exact H|exact I]);
       try apply outer_rest_ok.
-    destruct (eff c parsed v) eqn:Ee; [apply outer_rest_ok| |];
-      intros H; injection H as <- <-; (split; [intros it []|left; split; reflexivity]).
+    + destruct (eff c parsed v) eqn:Ee; [apply outer_rest_ok| |];
+        intros H; injection H as <- <-; (split; [intros it []|left; split; reflexivity]).
+    + (* MCmd: answered by pgcat, the batch and the pending verdict stay *)
+      intros H. injection H as <- <-. split; [intros it []|]. left. destruct cmd; split; reflexivity.
 Qed.
 
 (** Invariant.  A rejected Parse sitting in the buffer keeps a non-Allow verdict pending;
@@ -777,14 +785,14 @@ Proof.
     set (m := MP id name key parsed v).
     assert (Hbad: bad_msg c m = negb (is_allow (eff c parsed v))) by reflexivity.
     (* the verdict after this Parse *)
-    set (s1 := if parser_on c && parsed then if is_allow (pout s) then set_pout s (plug c v) else s else s).
+    set (s1 := if parsed then if is_allow (pout s) then set_pout s (plug c v) else s else s).
     assert (E1: ebuf s1 = ebuf s /\ ps s1 = ps s /\ rej s1 = rej s).
-    { subst s1. destruct (parser_on c && parsed); [destruct (is_allow (pout s))|]; repeat split. }
+    { subst s1. destruct parsed; [destruct (is_allow (pout s))|]; repeat split. }
     destruct E1 as (Eb & Ep & Er).
     assert (Hp1: is_allow (pout s) = false -> pout s1 = pout s).
-    { intros Ha. subst s1. destruct (parser_on c && parsed); [rewrite Ha|]; reflexivity. }
+    { intros Ha. subst s1. destruct parsed; [rewrite Ha|]; reflexivity. }
     assert (Hp2: is_allow (pout s) = true -> pout s1 = eff c parsed v).
-    { intros Ha. subst s1. unfold eff. destruct (parser_on c && parsed); [rewrite Ha; reflexivity|].
+    { intros Ha. subst s1. unfold eff. destruct parsed; [rewrite Ha; reflexivity|].
       apply is_allow_true. exact Ha. }
     assert (Hkeep: is_allow (pout s) = false -> is_allow (pout s1) = false) by (intros Ha; rewrite Hp1; assumption).
     assert (Hnew: bad_msg c m = true -> is_allow (pout s1) = false).
@@ -845,17 +853,18 @@ Proof.
     destruct acc; destruct (after_server c _ _) as [s2 e2] eqn:Ea; injection H as <- <-;
       (eapply Inv_after; [exact Ea|apply Inv_drained; exact I0]).
   - injection H as <- <-. exact I0.
+  - destruct (after_server c s tx_after) as [s2 e2] eqn:Ea. injection H as <- <-. eapply Inv_after; eassumption.
 Qed.
 
 Lemma Inv_held c s h tx : Inv c s -> Inv c (set_held s h tx).
 Proof. apply Inv_same; reflexivity. Qed.
 
-Lemma Inv_step c s m s' ev : Inv c s -> step c s m = (s', ev) -> Inv c s'.
+Lemma Inv_step c s m s' ev : Inv c s -> step_core c s m = (s', ev) -> Inv c s'.
 Proof.
-  intros I0 H. unfold step in H. destruct (dead s); [injection H as <- <-; exact I0|].
+  intros I0 H. unfold step_core in H. destruct (dead s); [injection H as <- <-; exact I0|].
   destruct (held s); [eapply Inv_inner; eassumption|].
   assert (Hco: forall s2 e2, outer_checkout c s m = (s2, e2) -> Inv c s2).
-  { intros s2 e2 Hc. unfold outer_checkout in Hc. destruct (pool_ok_of m).
+  { intros s2 e2 Hc. unfold outer_checkout in Hc. destruct (pool_ok_of m && role_ok s).
     - destruct (step_inner c (set_held s true false) m) as [s3 e3] eqn:Es. injection Hc as <- <-.
       eapply Inv_inner; [apply Inv_held; exact I0|exact Es].
     - injection Hc as <- <-. destruct (is_sync m); [apply Inv_reset|]; exact I0. }
@@ -865,7 +874,8 @@ Proof.
     - injection Hr as <- <-. apply Inv_consume. exact I0.
     - destruct (is_sync m); [injection Hr as <- <-; apply Inv_consume; exact I0|eapply Hco; exact Hr]. }
   destruct m; cbn [step_outer] in H; try (eapply Hor; exact H); try (eapply Inv_buffer; [exact I0|exact H]).
-  destruct (eff c parsed v); try (injection H as <- <-; exact I0). eapply Hor; exact H.
+  - destruct (eff c parsed v); try (injection H as <- <-; exact I0). eapply Hor; exact H.
+  - injection H as <- <-. destruct cmd; (eapply Inv_same; [..|exact I0]; reflexivity).
 Qed.
 
 Lemma in_bmsgs s m : In m (bmsgs s) -> exists o, In (m, o) (ebuf s).
@@ -873,14 +883,20 @@ Proof.
   unfold bmsgs. intros H. apply in_map_iff in H. destruct H as ([x o] & E & Hin). cbn in E. subst. exists o. exact Hin.
 Qed.
 
-(** MAIN: whatever the client sends, from any state satisfying the invariant, nothing the
-    plugins rejected is ever written to a server - neither the client's own message nor a
-    Parse that pgcat re-sends from the client's prepared-statement map. *)
-Lemma enforced_from c ops : forall s, Inv c s ->
-  forall it, In it (forwarded (snd (run c s ops))) -> bad_item c it = false.
+Lemma arrive_id P c s m : msg_id (arrive_with P c s m) = msg_id m.
+Proof. destruct m; reflexivity. Qed.
+
+(** MAIN: whatever the client sends (custom commands included), whatever gate [P] decides
+    which messages get parsed, from any state satisfying the invariant: a message that was
+    parsed on arrival and rejected by the plugins is never written to a server - neither
+    the client's own message nor a Parse that pgcat re-sends from the prepared-statement
+    map.  (In the trace a Q/P carries [parsed] = "pgcat parsed it", see [arrive_with].) *)
+Lemma enforced_from P c ops : forall s, Inv c s ->
+  forall it, In it (forwarded (snd (run_with P c s ops))) -> bad_item c it = false.
 Proof.
   induction ops as [|m r IH]; intros s I0 it Hi; [destruct Hi|].
-  cbn [run] in Hi. destruct (step c s m) as [s1 e1] eqn:Es. destruct (run c s1 r) as [s2 e2] eqn:Er.
+  cbn [run_with] in Hi. destruct (step_with P c s m) as [s1 e1] eqn:Es. destruct (run_with P c s1 r) as [s2 e2] eqn:Er.
+  unfold step_with in Es.
   cbn [snd] in Hi. rewrite forwarded_app in Hi. apply in_app_or in Hi.
   destruct Hi as [Hi|Hi].
   - destruct (step_ok _ _ _ _ _ Es) as [Hf _]. destruct I0 as (I1 & I2 & _ & _).
@@ -895,23 +911,43 @@ Qed.
 Lemma enforced c ops it : In it (forwarded (trace c ops)) -> bad_item c it = false.
 Proof. apply enforced_from. apply Inv_init. Qed.
 
+(** With the pool's parser on and plugins configured every message is parsed, whatever the
+    session's override says (SET SERVER ROLE cannot switch the plugins off) ... *)
+Lemma parses_pool c s : parser_on c = true -> plugins_on c = true -> parses c s = true.
+Proof. intros H1 H2. unfold parses. rewrite H1, H2. apply orb_true_r. Qed.
+
+Lemma arrive_pool c s m : parser_on c = true -> plugins_on c = true -> arrive_with parses c s m = m.
+Proof.
+  intros H1 H2. destruct m; cbn [arrive_with]; try reflexivity; rewrite parses_pool by assumption; rewrite andb_true_r; reflexivity.
+Qed.
+
+(** ... and with the pool's parser off, SET SERVER ROLE TO 'auto' turns the session's parser
+    on: messages are parsed - and the (inherited) plugins run - from then on. *)
+Lemma arrive_auto c s m : ov s = Some true -> arrive_with parses c s m = m.
+Proof.
+  intros H. assert (E: parses c s = true) by (unfold parses, qpe; rewrite H; reflexivity).
+  destruct m; cbn [arrive_with]; try reflexivity; rewrite E, andb_true_r; reflexivity.
+Qed.
+
 (** A batch whose verdict is pending as Deny/Intercept is dropped as a whole: none of the
     messages buffered so far is ever forwarded, whatever follows (message ids of the
     continuation being fresh). *)
 Definition ids (l : list msg) : list nat := map msg_id l.
 
-Lemma batch_dropped_gen c ops : forall s (I : list nat),
+Lemma batch_dropped_gen P c ops : forall s (I : list nat),
   (is_allow (pout s) = false \/ (forall m, In m (bmsgs s) -> ~ In (msg_id m) I)) ->
   (forall m, In m ops -> ~ In (msg_id m) I) ->
-  forall m, In (FMsg m) (forwarded (snd (run c s ops))) -> ~ In (msg_id m) I.
+  forall m, In (FMsg m) (forwarded (snd (run_with P c s ops))) -> ~ In (msg_id m) I.
 Proof.
   induction ops as [|x r IH]; intros s I H0 Hfresh m Hi; [destruct Hi|].
-  cbn [run] in Hi. destruct (step c s x) as [s1 e1] eqn:Es. destruct (run c s1 r) as [s2 e2] eqn:Er.
+  cbn [run_with] in Hi. destruct (step_with P c s x) as [s1 e1] eqn:Es. destruct (run_with P c s1 r) as [s2 e2] eqn:Er.
+  unfold step_with in Es. set (x' := arrive_with P c s x) in *.
+  assert (Hx: ~ In (msg_id x') I) by (subst x'; rewrite arrive_id; apply Hfresh; left; reflexivity).
   cbn [snd] in Hi. rewrite forwarded_app in Hi. apply in_app_or in Hi.
   destruct (step_ok _ _ _ _ _ Es) as [Hf Hb].
   destruct Hi as [Hi|Hi].
   - destruct (Hf _ Hi) as [[E _]|[(m' & E & Hm' & Ha)|(m' & p & E & _)]].
-    + injection E as ->. apply Hfresh. left. reflexivity.
+    + injection E as ->. exact Hx.
     + injection E as ->. destruct H0 as [H0|H0]; [rewrite H0 in Ha; discriminate|]. apply H0. exact Hm'.
     + discriminate.
   - apply (IH s1 I); [| |rewrite Er; exact Hi].
@@ -919,8 +955,7 @@ Proof.
       * rewrite E1, E2. exact H0.
       * destruct H0 as [H0|H0].
         -- left. rewrite H0 in E2. rewrite E2. exact H0.
-        -- right. rewrite E1. intros y Hy. apply in_app_or in Hy. destruct Hy as [Hy|[<-|[]]]; [apply H0; exact Hy|].
-           apply Hfresh. left. reflexivity.
+        -- right. rewrite E1. intros y Hy. apply in_app_or in Hy. destruct Hy as [Hy|[<-|[]]]; [apply H0; exact Hy|exact Hx].
       * right. rewrite E1. intros y [].
       * right. rewrite E1. intros y [].
     + intros y Hy. apply Hfresh. right. exact Hy.
@@ -932,14 +967,15 @@ Lemma batch_dropped c s ops m :
   In (FMsg m) (forwarded (snd (run c s ops))) -> ~ In (msg_id m) (ids (bmsgs s)).
 Proof. intros Hp Hf. apply batch_dropped_gen; [left; exact Hp|exact Hf]. Qed.
 
-(** A rejected Q is answered at once, whatever the state, and changes nothing. *)
+(** A Q that is parsed and rejected is answered at once, whatever the state, and changes
+    nothing. *)
 Lemma q_answered c s id parsed v po tx :
-  dead s = false -> eff c parsed v <> Allow ->
+  dead s = false -> eff c (parsed && parses c s) v <> Allow ->
   step c s (MQ id parsed v po tx) =
-    (s, [match eff c parsed v with Deny t => EvErr (EPlugin t) | Intercept t => EvIntercept t | Allow => EvEnd end]).
+    (s, [match eff c (parsed && parses c s) v with Deny t => EvErr (EPlugin t) | Intercept t => EvIntercept t | Allow => EvEnd end]).
 Proof.
-  intros Hd He. unfold step. rewrite Hd. destruct (held s); cbn [step_inner step_outer];
-    destruct (eff c parsed v); try reflexivity; contradiction.
+  intros Hd He. unfold step, step_with, step_core. cbn [arrive_with]. rewrite Hd. destruct (held s); cbn [step_inner step_outer];
+    destruct (eff c (parsed && parses c s) v); try reflexivity; contradiction.
 Qed.
 
 (** A pending Deny / Intercept is answered by the next Sync, in either loop, without a
@@ -948,14 +984,14 @@ Lemma sync_answers_deny c s id po tx t :
   dead s = false -> pout s = Deny t ->
   step c s (MS id po tx) = (consume s, [EvErr (EPlugin t)]).
 Proof.
-  intros Hd Hp. unfold step. rewrite Hd. destruct (held s); cbn [step_inner step_outer]; unfold outer_rest; rewrite Hp; reflexivity.
+  intros Hd Hp. unfold step, step_with, step_core. cbn [arrive_with]. rewrite Hd. destruct (held s); cbn [step_inner step_outer]; unfold outer_rest; rewrite Hp; reflexivity.
 Qed.
 
 Lemma sync_answers_intercept c s id po tx t :
   dead s = false -> pout s = Intercept t ->
   step c s (MS id po tx) = (consume s, [EvIntercept t]).
 Proof.
-  intros Hd Hp. unfold step. rewrite Hd. destruct (held s); cbn [step_inner step_outer]; unfold outer_rest; rewrite Hp; reflexivity.
+  intros Hd Hp. unfold step, step_with, step_core. cbn [arrive_with]. rewrite Hd. destruct (held s); cbn [step_inner step_outer]; unfold outer_rest; rewrite Hp; reflexivity.
 Qed.
 
 (** After the batch is dropped no rejected Parse is left in the client's map: a later Bind or
@@ -966,11 +1002,11 @@ Proof.
   destruct (bad_msg c p) eqn:Eb; [|reflexivity]. destruct (I3 n p Hin Eb).
 Qed.
 
-Lemma Inv_run c ops : forall s, Inv c s -> Inv c (fst (run c s ops)).
+Lemma Inv_run P c ops : forall s, Inv c s -> Inv c (fst (run_with P c s ops)).
 Proof.
   induction ops as [|m r IH]; intros s I0; [exact I0|].
-  cbn [run]. destruct (step c s m) as [s1 e1] eqn:Es. destruct (run c s1 r) as [s2 e2] eqn:Er.
-  cbn [fst]. change s2 with (fst (s2, e2)). rewrite <- Er. apply IH. eapply Inv_step; eassumption.
+  cbn [run_with]. destruct (step_with P c s m) as [s1 e1] eqn:Es. destruct (run_with P c s1 r) as [s2 e2] eqn:Er.
+  cbn [fst]. change s2 with (fst (s2, e2)). rewrite <- Er. apply IH. unfold step_with in Es. eapply Inv_step; eassumption.
 Qed.
 
 Lemma names_forgotten c ops n p :
@@ -984,11 +1020,11 @@ Definition fresh (s : state) : Prop := is_allow (pout s) = false -> ebuf s <> []
 Lemma bmsgs_nil s : bmsgs s = [] <-> ebuf s = [].
 Proof. unfold bmsgs. destruct (ebuf s); cbn; split; intros H; try reflexivity; discriminate. Qed.
 
-Lemma no_stale_from c ops : forall s, fresh s -> fresh (fst (run c s ops)).
+Lemma no_stale_from P c ops : forall s, fresh s -> fresh (fst (run_with P c s ops)).
 Proof.
   induction ops as [|m r IH]; intros s F; [exact F|].
-  cbn [run]. destruct (step c s m) as [s1 e1] eqn:Es. destruct (run c s1 r) as [s2 e2] eqn:Er.
-  cbn [fst]. change s2 with (fst (s2, e2)). rewrite <- Er. apply IH.
+  cbn [run_with]. destruct (step_with P c s m) as [s1 e1] eqn:Es. destruct (run_with P c s1 r) as [s2 e2] eqn:Er.
+  cbn [fst]. change s2 with (fst (s2, e2)). rewrite <- Er. apply IH. unfold step_with in Es.
   destruct (step_ok _ _ _ _ _ Es) as [_ Hb]. unfold fresh in *.
   destruct Hb as [[E1 E2]|[[E1 E2]|[[E1 E2]|(E1 & E2 & E3)]]].
   - rewrite E2. intros Ha Hn. apply (F Ha). apply bmsgs_nil. rewrite <- E1. apply bmsgs_nil. exact Hn.
@@ -1000,15 +1036,10 @@ Qed.
 Lemma no_stale c ops : fresh (fst (run c init ops)).
 Proof. apply no_stale_from. intros H. discriminate. Qed.
 
-(** Plugins disabled (no [plugins] section, or the query parser off): no message is
-    bad, nothing is ever answered by a plugin, and a Q goes to the server. *)
-Definition disabled (c : cfg) : Prop := plugins_on c = false \/ parser_on c = false.
-
-Lemma disabled_eff c p v : disabled c -> eff c p v = Allow.
-Proof. unfold eff, plug. intros [H|H]; rewrite H; [destruct (parser_on c && p)|]; reflexivity. Qed.
-
-Lemma disabled_not_bad c m : disabled c -> bad_msg c m = false.
-Proof. intros H. destruct m; cbn [bad_msg]; try reflexivity; rewrite disabled_eff by exact H; reflexivity. Qed.
+(** Nothing is answered on a plugin's behalf while every arriving Q / P is harmless (not
+    parsed, or allowed by the plugins). *)
+Definition harmless (c : cfg) (m : msg) : Prop :=
+  match m with MQ _ p v _ _ | MP _ _ _ p v => eff c p v = Allow | _ => True end.
 
 Lemma no_plugin_app a b : forallb (fun e => negb (plugin_event e)) (a ++ b) =
                           forallb (fun e => negb (plugin_event e)) a && forallb (fun e => negb (plugin_event e)) b.
@@ -1016,8 +1047,8 @@ Proof. apply forallb_app. Qed.
 
 Notation quiet ev := (forallb (fun e => negb (plugin_event e)) ev = true).
 
-Lemma after_server_quiet c s tx s' ev : after_server c s tx = (s', ev) -> pout s' = pout s /\ quiet ev.
-Proof. unfold after_server. destruct (negb tx && txn_mode c); intros H; injection H as <- <-; split; reflexivity. Qed.
+Lemma after_server_quiet c s tx s' ev : after_server c s tx = (s', ev) -> pout s' = pout s /\ sess s' = sess s /\ quiet ev.
+Proof. unfold after_server. destruct (negb tx && txn_mode c); intros H; injection H as <- <-; repeat split. Qed.
 
 Lemma drain_quiet c buf : forall sv early acc early' acc' sv',
   drain c buf sv early acc = (early', acc', sv') -> quiet early -> quiet early'.
@@ -1032,64 +1063,115 @@ Proof.
       (eapply IH; [exact H|]; first [exact Q|apply Q2]).
 Qed.
 
-Lemma disabled_step_inner c s m s' ev : disabled c -> pout s = Allow -> step_inner c s m = (s', ev) ->
-  pout s' = Allow /\ quiet ev.
+Lemma quiet_inner c s m s' ev : harmless c m -> pout s = Allow -> step_inner c s m = (s', ev) ->
+  pout s' = Allow /\ sess s' = sess s /\ quiet ev.
 Proof.
-  intros Hd Hp H. destruct m; cbn [step_inner buffer_msg] in H.
-  - rewrite (disabled_eff c parsed v Hd) in H. destruct (after_server c s tx_after) as [s2 e2] eqn:Ea.
-    injection H as <- <-. destruct (after_server_quiet _ _ _ _ _ Ea) as [E Q]. split; [congruence|exact Q].
-  - assert (Hs1: pout (if parser_on c && parsed then if is_allow (pout s) then set_pout s (plug c v) else s else s) = Allow).
-    { destruct (parser_on c && parsed) eqn:Epp; [|exact Hp]. rewrite Hp. cbn [is_allow set_pout pout].
-      unfold plug. destruct Hd as [Hd|Hd]; [rewrite Hd; reflexivity|]. rewrite Hd in Epp. discriminate. }
-    injection H as <- <-. split; [|reflexivity].
-    destruct (ps_on c); [destruct (negb (is_allow (eff c parsed v)))|]; exact Hs1.
-  - destruct (ps_on c); [destruct (lookup name (ps s))|]; injection H as <- <-; split; try reflexivity; exact Hp.
-  - destruct (ps_on c && is_stmt); [destruct (lookup name (ps s))|]; injection H as <- <-; split; try reflexivity; exact Hp.
-  - injection H as <- <-; split; [exact Hp|reflexivity].
-  - destruct (ps_on c && is_stmt && negb (Nat.eqb name 0)); injection H as <- <-; split; try reflexivity; exact Hp.
+  intros Hh Hp H. destruct m; cbn [step_inner buffer_msg] in H; cbn [harmless] in Hh.
+  - rewrite Hh in H. destruct (after_server c s tx_after) as [s2 e2] eqn:Ea.
+    injection H as <- <-. destruct (after_server_quiet _ _ _ _ _ Ea) as (E & E' & Q). repeat split; [congruence|exact E'|exact Q].
+  - assert (Hs1: pout (if parsed then if is_allow (pout s) then set_pout s (plug c v) else s else s) = Allow /\
+                 sess (if parsed then if is_allow (pout s) then set_pout s (plug c v) else s else s) = sess s).
+    { unfold eff in Hh. destruct parsed; [|split; [exact Hp|reflexivity]]. rewrite Hp. cbn [is_allow set_pout pout sess]. split; [exact Hh|reflexivity]. }
+    destruct Hs1 as [Hs1 Hs2]. injection H as <- <-. repeat split.
+    + destruct (ps_on c); [destruct (negb (is_allow (eff c parsed v)))|]; exact Hs1.
+    + destruct (ps_on c); [destruct (negb (is_allow (eff c parsed v)))|]; exact Hs2.
+  - destruct (ps_on c); [destruct (lookup name (ps s))|]; injection H as <- <-; repeat split; exact Hp.
+  - destruct (ps_on c && is_stmt); [destruct (lookup name (ps s))|]; injection H as <- <-; repeat split; exact Hp.
+  - injection H as <- <-; repeat split; exact Hp.
+  - destruct (ps_on c && is_stmt && negb (Nat.eqb name 0)); injection H as <- <-; repeat split; exact Hp.
   - rewrite Hp in H. destruct (drain c (ebuf s) (srv s) [] []) as [[early acc] sv] eqn:D.
     pose proof (drain_quiet _ _ _ _ _ _ _ _ D eq_refl) as Qe.
     destruct acc.
     + destruct (after_server c _ _) as [s2 e2] eqn:Ea. injection H as <- <-.
-      destruct (after_server_quiet _ _ _ _ _ Ea) as [E Q]. split; [rewrite E; exact Hp|]. rewrite no_plugin_app, Qe, Q. reflexivity.
+      destruct (after_server_quiet _ _ _ _ _ Ea) as (E & E' & Q). repeat split; [rewrite E; exact Hp|exact E'|]. rewrite no_plugin_app, Qe, Q. reflexivity.
     + destruct (after_server c _ _) as [s2 e2] eqn:Ea. injection H as <- <-.
-      destruct (after_server_quiet _ _ _ _ _ Ea) as [E Q]. split; [rewrite E; exact Hp|].
+      destruct (after_server_quiet _ _ _ _ _ Ea) as (E & E' & Q). repeat split; [rewrite E; exact Hp|exact E'|].
       rewrite no_plugin_app, Qe. cbn [forallb plugin_event negb andb]. exact Q.
-  - injection H as <- <-; split; [exact Hp|reflexivity].
+  - injection H as <- <-; repeat split; exact Hp.
+  - destruct (after_server c s tx_after) as [s2 e2] eqn:Ea.
+    injection H as <- <-. destruct (after_server_quiet _ _ _ _ _ Ea) as (E & E' & Q). repeat split; [congruence|exact E'|exact Q].
 Qed.
 
-Lemma disabled_step c s m s' ev : disabled c -> pout s = Allow -> step c s m = (s', ev) ->
-  pout s' = Allow /\ quiet ev.
+(** the session's override changes only by a custom command in the outer loop *)
+Lemma quiet_core c s m s' ev : harmless c m -> pout s = Allow -> step_core c s m = (s', ev) ->
+  pout s' = Allow /\ quiet ev /\
+  (sess s' = sess s \/ exists i cmd po tx, m = MCmd i cmd po tx /\ s' = apply_cmd s cmd).
 Proof.
-  intros Hd Hp H. unfold step in H. destruct (dead s); [injection H as <- <-; split; [exact Hp|reflexivity]|].
-  destruct (held s); [eapply disabled_step_inner; eassumption|].
-  assert (Ho: forall s2 e2, outer_rest c s m = (s2, e2) -> pout s2 = Allow /\ quiet e2).
-  { intros s2 e2 Hr. unfold outer_rest, outer_checkout in Hr. rewrite Hp in Hr. destruct (pool_ok_of m).
+  intros Hh Hp H. unfold step_core in H. destruct (dead s); [injection H as <- <-; repeat split; [exact Hp|left; reflexivity]|].
+  destruct (held s).
+  { destruct (quiet_inner _ _ _ _ _ Hh Hp H) as (A & B & C). repeat split; [exact A|exact C|left; exact B]. }
+  assert (Ho: forall s2 e2, outer_rest c s m = (s2, e2) -> pout s2 = Allow /\ quiet e2 /\ sess s2 = sess s).
+  { intros s2 e2 Hr. unfold outer_rest, outer_checkout in Hr. rewrite Hp in Hr. destruct (pool_ok_of m && role_ok s).
     - destruct (step_inner c (set_held s true false) m) as [s3 e3] eqn:Es. injection Hr as <- <-.
-      destruct (disabled_step_inner c (set_held s true false) _ _ _ Hd Hp Es) as [E Q]. split; [exact E|exact Q].
-    - injection Hr as <- <-. split; [destruct (is_sync m); exact Hp|reflexivity]. }
-  destruct m; cbn [step_outer] in H; try (apply Ho; exact H);
-    try (match type of H with buffer_msg c s ?m0 = _ => apply (disabled_step_inner c s m0 s' ev Hd Hp); exact H end).
-  rewrite (disabled_eff c parsed v Hd) in H. apply Ho. exact H.
+      destruct (quiet_inner c (set_held s true false) _ _ _ Hh Hp Es) as (E & E' & Q). repeat split; [exact E|exact Q|exact E'].
+    - injection Hr as <- <-. repeat split; destruct (is_sync m); first [exact Hp|reflexivity]. }
+  destruct m; cbn [step_outer] in H;
+    try (destruct (Ho _ _ H) as (A & B & C); repeat split; [exact A|exact B|left; exact C]);
+    try (match type of H with buffer_msg c s ?m0 = _ =>
+           destruct (quiet_inner c s m0 s' ev Hh Hp H) as (A & B & C); repeat split; [exact A|exact C|left; exact B] end).
+  - cbn [harmless] in Hh. rewrite Hh in H. destruct (Ho _ _ H) as (A & B & C). repeat split; [exact A|exact B|left; exact C].
+  - injection H as <- <-. repeat split.
+    + destruct cmd; exact Hp.
+    + right. exists id, cmd, pool_ok, tx_after. split; reflexivity.
 Qed.
 
-Lemma disabled_quiet_from c ops : disabled c -> forall s, pout s = Allow -> quiet (snd (run c s ops)).
+(** Plugins not configured for the pool (no effective [plugins] section): no message is
+    bad, nothing is ever answered by a plugin, and a Q goes to the server. *)
+Definition disabled (c : cfg) : Prop := plugins_on c = false.
+
+Lemma disabled_eff c p v : disabled c -> eff c p v = Allow.
+Proof. unfold disabled, eff, plug. intros H. rewrite H. destruct p; reflexivity. Qed.
+
+Lemma disabled_not_bad c m : disabled c -> bad_msg c m = false.
+Proof. intros H. destruct m; cbn [bad_msg]; try reflexivity; rewrite disabled_eff by exact H; reflexivity. Qed.
+
+Lemma disabled_harmless c m : disabled c -> harmless c m.
+Proof. intros H. destruct m; cbn [harmless]; try exact I; apply disabled_eff; exact H. Qed.
+
+Lemma disabled_quiet_from P c ops : disabled c -> forall s, pout s = Allow -> quiet (snd (run_with P c s ops)).
 Proof.
   intros Hd. induction ops as [|m r IH]; intros s Hp; [reflexivity|].
-  cbn [run]. destruct (step c s m) as [s1 e1] eqn:Es. destruct (run c s1 r) as [s2 e2] eqn:Er.
-  destruct (disabled_step _ _ _ _ _ Hd Hp Es) as [E Q]. cbn [snd]. rewrite no_plugin_app, Q.
+  cbn [run_with]. destruct (step_with P c s m) as [s1 e1] eqn:Es. destruct (run_with P c s1 r) as [s2 e2] eqn:Er.
+  unfold step_with in Es.
+  destruct (quiet_core _ _ _ _ _ (disabled_harmless c _ Hd) Hp Es) as (E & Q & _). cbn [snd]. rewrite no_plugin_app, Q.
   specialize (IH s1 E). rewrite Er in IH. exact IH.
 Qed.
 
 Lemma disabled_noop c ops : disabled c ->
   quiet (trace c ops) /\ (forall m, bad_msg c m = false) /\
-  (forall s id p v tx, dead s = false -> pout s = Allow ->
-     In (EvFwd [FMsg (MQ id p v true tx)]) (snd (step c s (MQ id p v true tx)))).
+  (forall s id p v tx, dead s = false -> pout s = Allow -> role_ok s = true ->
+     In (EvFwd [FMsg (MQ id (p && parses c s) v true tx)]) (snd (step c s (MQ id p v true tx)))).
 Proof.
   intros Hd. split; [apply disabled_quiet_from; [exact Hd|reflexivity]|]. split; [intros m; apply disabled_not_bad; exact Hd|].
-  intros s id p v tx Hdead Hp. unfold step. rewrite Hdead.
-  destruct (held s) eqn:Eh; cbn [step_outer step_inner]; rewrite (disabled_eff c p v Hd).
+  intros s id p v tx Hdead Hp Hr. unfold step, step_with, step_core. cbn [arrive_with]. rewrite Hdead.
+  destruct (held s) eqn:Eh; cbn [step_outer step_inner]; rewrite (disabled_eff c _ v Hd).
   - destruct (after_server c s tx). cbn. left. reflexivity.
-  - unfold outer_rest, outer_checkout. rewrite Hp. cbn [pool_ok_of step_inner]. rewrite (disabled_eff c p v Hd).
+  - unfold outer_rest, outer_checkout. rewrite Hp, Hr. cbn [pool_ok_of andb step_inner]. rewrite (disabled_eff c _ v Hd).
     destruct (after_server c (set_held s true false) tx). cbn. right. left. reflexivity.
 Qed.
+
+(** The pool's parser off and the session never switches its own parser on (no SET SERVER
+    ROLE TO 'auto'): nothing is parsed, so nothing is ever answered by a plugin either. *)
+Definition is_auto (m : msg) : bool := match m with MCmd _ (CRole RAuto _) _ _ => true | _ => false end.
+
+Lemma parser_off_quiet_from c ops : parser_on c = false -> forallb (fun m => negb (is_auto m)) ops = true ->
+  forall s, pout s = Allow -> ov s <> Some true -> quiet (snd (run c s ops)).
+Proof.
+  intros Hoff. induction ops as [|m r IH]; intros Hna s Hp Hov; [reflexivity|].
+  cbn [forallb] in Hna. apply andb_true_iff in Hna. destruct Hna as [Hm Hr].
+  unfold run. cbn [run_with]. destruct (step_with parses c s m) as [s1 e1] eqn:Es.
+  destruct (run_with parses c s1 r) as [s2 e2] eqn:Er. unfold step_with in Es.
+  assert (Hnp: parses c s = false).
+  { unfold parses, qpe. rewrite Hoff. destruct (ov s) as [[|]|]; [congruence|reflexivity|reflexivity]. }
+  assert (Hh: harmless c (arrive_with parses c s m)).
+  { destruct m; cbn [arrive_with harmless]; try exact I; rewrite Hnp, andb_false_r; reflexivity. }
+  destruct (quiet_core _ _ _ _ _ Hh Hp Es) as (E & Q & S1). cbn [snd]. rewrite no_plugin_app, Q.
+  assert (Hov1: ov s1 <> Some true).
+  { destruct S1 as [S1|(i & cmd & po & tx & Em & ->)]; [unfold ov in *; rewrite S1; exact Hov|].
+    destruct m; cbn [arrive_with] in Em; try discriminate. injection Em as _ -> _ _.
+    destruct cmd as [r0 ok|]; [|exact Hov]. destruct r0; cbn; discriminate. }
+  specialize (IH Hr s1 E Hov1). unfold run in IH. rewrite Er in IH. exact IH.
+Qed.
+
+Lemma parser_off_noop c ops : parser_on c = false -> forallb (fun m => negb (is_auto m)) ops = true -> quiet (trace c ops).
+Proof. intros H1 H2. apply parser_off_quiet_from; try assumption; [reflexivity|discriminate]. Qed.
